@@ -3,8 +3,10 @@
     Model: Model/C05_Latent.v ([latent n fd d] = latentfn of the problem classes of family [fd] on the decision [d];
     [DSub s] = subset encoding, [DVec x] = integer-count / binary-indicator / real-contribution encoding;
     [res_eq] = same shape and equal rationals; norms are represented by their squares). *)
-From Coq Require Import PrimFloat Permutation.
+From Coq Require Import String.
+From Coq Require Import List PrimFloat Permutation.
 From PV Require Import Lib.Common Lib.FloatK Model.C05_Latent Model.C05_Factory Proofs.C05_Latent Proofs.C05_Avail Proofs.C05_Factory Gen.C05_Kernel Proofs.C05_Kernel Proofs.C05_Session.
+From PV Require Import Model.C05_Report Proofs.C05_Report.
 Local Open Scope Q_scope.
 
 (** Every family's subset formula is its contribution-vector formula ("the definition") evaluated at
@@ -330,6 +332,62 @@ Proof.
   split; [reflexivity|]. split; [reflexivity|]. split; [apply uniform_total; lia|].
   split; [intros x [<-|[<-|[]]]; reflexivity|]. vm_compute. repeat constructor.
 Qed.
+
+(** The REPORTING path.  [SelectionProblem._evaluate(x, out)] is what pymoo's Problem.evaluate and the memetic hill climbers
+    read.  The generated tables of the CURRENT source (Gen/C05_Kernel.v: which element of the evalfn triple is stored under which
+    key of [out], in the vector branch and in the matrix branch; the branch test; the filters) say: "F", "G", "H" are elements
+    0, 1, 2 of the triple in BOTH branches, the vector branch is taken exactly for a one-dimensional argument, and a key is
+    stored exactly when its length (vector) / its number of columns (matrix) is positive. *)
+Theorem C05_kernel_evaluate_keys :
+  k_evaluate_vec_table = [("F"%string, 0%nat); ("G"%string, 1%nat); ("H"%string, 2%nat)] /\
+  k_evaluate_mat_table = [("F"%string, 0%nat); ("G"%string, 1%nat); ("H"%string, 2%nat)].
+Proof. exact k_evaluate_tables. Qed.
+Print Assumptions C05_kernel_evaluate_keys.
+Theorem C05_kernel_evaluate_tests :
+  (forall nd, k_evaluate_is_vec nd = (nd =? 1)%Z) /\ (forall n, k_evaluate_vec_keep n = (0 <? n)%Z) /\
+  (forall r c, k_evaluate_mat_keep r c = (0 <? c)%Z).
+Proof. exact k_evaluate_tests. Qed.
+Print Assumptions C05_kernel_evaluate_tests.
+(** Hence, for a problem whose evalfn is the generated [k_evalfn] over ANY latent function, weights and transformations: what
+    [_evaluate] reports for a decision vector, and row by row for a non-empty matrix of candidates, is the declared weights
+    times the declared transformations of the latent vector of that candidate — objectives under "F", inequality constraint
+    violations under "G", equality constraint violations under "H"; a key is present iff its width is positive. *)
+Theorem C05_evaluate_reports_evalfn : forall To Ti Te wo wi we (lat : list Q -> list Q),
+  let f := fun x => k_evalfn To Ti Te wo wi we x (lat x) in
+  (forall x, evaluate f (X1 x) = Some (present_vec "F" (map2 Qmult wo (To x (lat x))) ++ present_vec "G" (map2 Qmult wi (Ti x (lat x))) ++
+                                      present_vec "H" (map2 Qmult we (Te x (lat x))))) /\
+  (forall X, X <> [] -> evaluate f (X2 X) = Some (present_mat "F" (map (fun x => map2 Qmult wo (To x (lat x))) X) ++
+                                                  present_mat "G" (map (fun x => map2 Qmult wi (Ti x (lat x))) X) ++
+                                                  present_mat "H" (map (fun x => map2 Qmult we (Te x (lat x))) X))).
+Proof. exact evaluate_reports_evalfn. Qed.
+Print Assumptions C05_evaluate_reports_evalfn.
+(** the keys stored are those of positive declared count, in the order F, G, H, in both branches; every stored matrix has one
+    row per candidate; one candidate through the matrix branch reports the numbers of the vector branch *)
+Theorem C05_evaluate_keys_present : forall (e : triple) evs,
+  map fst (report_mat (e :: evs)) = keys_of (length (fst (fst e))) (length (snd (fst e))) (length (snd e)) /\
+  map fst (report_vec e) = keys_of (length (fst (fst e))) (length (snd (fst e))) (length (snd e)).
+Proof. exact report_keys. Qed.
+Print Assumptions C05_evaluate_keys_present.
+Theorem C05_evaluate_one_row_per_candidate : forall evs key m, In (key, OM m) (report_mat evs) -> length m = length evs.
+Proof. exact report_mat_rows. Qed.
+Print Assumptions C05_evaluate_one_row_per_candidate.
+Theorem C05_evaluate_single_row_is_vector : forall ev,
+  report_mat [ev] = flat_map (fun kv : string * outv => match snd kv with OV v => [(fst kv, OM [v])] | OM _ => [] end) (report_vec ev).
+Proof. exact report_row_is_vec. Qed.
+Print Assumptions C05_evaluate_single_row_is_vector.
+(** regression witness: "H" taken from the inequality column (element 1) is not the report of the current source *)
+Theorem C05_evaluate_h_from_ineq_refuted :
+  report_mat_t h_from_ineq_table [([1], [2], [3; 4])] <> report_mat [([1], [2], [3; 4])] /\
+  map fst (report_mat_t h_from_ineq_table [([1], [], [3])]) = ["F"%string] /\ map fst (report_mat [([1], [], [3])]) = ["F"%string; "H"%string].
+Proof. exact h_from_ineq_differs. Qed.
+Print Assumptions C05_evaluate_h_from_ineq_refuted.
+
+Example C05_evaluate_hyps_satisfiable :
+  [[1; 0]; [0; 1]] <> ([] : list (list Q)) /\
+  evaluate (fun x => k_evalfn (apply_trans TId) (apply_trans TEmpty) (apply_trans TSum) [2; -1] [] [3] x (map (Qmult (1#2)) x)) (X2 [[1; 0]; [0; 1]])
+    = Some [("F"%string, OM [[2 * ((1#2) * 1); -1 * ((1#2) * 0)]; [2 * ((1#2) * 0); -1 * ((1#2) * 1)]]); ("H"%string, OM [[3 * Qred ((1#2) * 1 + Qred ((1#2) * 0 + 0))]; [3 * Qred ((1#2) * 0 + Qred ((1#2) * 1 + 0))]])] /\
+  In ("H"%string, OM [[3]; [4]]) (report_mat [([1], [], [3]); ([2], [], [4])]).
+Proof. split; [discriminate|]. split; [reflexivity|]. right. left. reflexivity. Qed.
 
 Example C05_kernel_hyps_satisfiable :
   In k_guard__OptimalContributionRealSelectionProblem k_guard_all /\ In k_contrib__OptimalContributionRealSelectionProblem k_contrib_all
